@@ -34,6 +34,7 @@ RULE = (
     "against email.utils.formatdate) of start/end, the energy filter and sort=connectionTime; "
     "count=True issues one HEAD request and returns the x-total-count header. Round trip: "
     "parse_http_date(http_date(dt), tz) == dt truncated to the second, in the zone's offset. "
+    "Time series may span months (interior samples in another UTC offset than both ends) or be out of time order; energy thresholds are arbitrary floats and must arrive numerically unchanged. "
     "Non-trivial = an empty page before a non-empty one, or an instant within a day of a DST change."
 )
 ASSUMPTIONS = [
@@ -107,6 +108,21 @@ def parse_request(req):
     return path, params
 
 
+def check_where(got, want_prefix, min_energy, clause):
+    """The filter sent: the time window verbatim, the energy threshold as a number equal to the one
+    given (whatever its rendering)."""
+    if min_energy is None:
+        require(got == want_prefix, clause, lambda: "where=%r, expected %r" % (got, want_prefix))
+        return
+    head = want_prefix + " and kWhDelivered > "
+    require(isinstance(got, str) and got.startswith(head), clause, lambda: "where=%r, expected %r<threshold>" % (got, head))
+    try:
+        val = float(got[len(head):])
+    except ValueError:
+        val = None
+    require(val is not None and val == float(min_energy), clause, lambda: "where=%r carries the energy threshold %r, the caller gave %r" % (got, got[len(head):], min_energy))
+
+
 def check_datetime(val, epoch, zone, what):
     require(isinstance(val, datetime) and val.tzinfo is not None, "time_field_not_aware_datetime", lambda: "%s: %r" % (what, val))
     require(val.timestamp() == epoch, "time_field_instant_changed", lambda: "%s: %r is epoch %r, document says %r" % (what, val, val.timestamp(), epoch))
@@ -154,16 +170,12 @@ def prop(spec, rec):
                 path, params = parse_request(tr.heads[0])
                 require(path == BASE + "sessions/" + spec["site"], "count_endpoint", lambda: "HEAD %r" % path)
                 want = 'connectionTime >= "%s" and connectionTime <= "%s"' % (rfc(q["start"]), rfc(q["end"]))
-                if q["min_energy"] is not None:
-                    want += " and kWhDelivered > %s" % q["min_energy"]
-                require(params.get("where") == want, "count_filter", lambda: "where=%r, expected %r" % (params.get("where"), want))
+                check_where(params.get("where"), want, q["min_energy"], "count_filter")
                 require((tr.heads[0]["headers"] or {}).get("Authorization") == "Bearer " + spec["token"], "count_credentials", lambda: "headers %r" % tr.heads[0]["headers"])
                 rec.case(spec, {"count"}, False)
                 return
             out = list(client.get_sessions_by_time(spec["site"], start, end, min_energy=q["min_energy"], timeseries=q["timeseries"]))
             want_cond = 'connectionTime >= "%s" and connectionTime <= "%s"' % (rfc(q["start"]), rfc(q["end"]))
-            if q["min_energy"] is not None:
-                want_cond += " and kWhDelivered > %s" % q["min_energy"]
             want_params = {"where": want_cond, "sort": "connectionTime"}
             labels.add("by_time")
         else:
@@ -179,6 +191,9 @@ def prop(spec, rec):
     endpoint = BASE + "sessions/" + spec["site"] + ("/ts/" if q["timeseries"] else "")
     require(path == endpoint, "first_request_endpoint", lambda: "first request %r, expected %r" % (path, endpoint))
     want_params["max_results"] = "1" if q["timeseries"] else "100"
+    if q["kind"] == "by_time":
+        check_where(params.get("where"), want_params["where"], q["min_energy"], "first_request_parameters")
+        params = dict(params, where=want_params["where"])
     require(params == want_params, "first_request_parameters", lambda: "parameters %r, expected %r" % (params, want_params))
     for k, r in enumerate(tr.requests):
         require(tuple(r["auth"] or ()) == (spec["token"], ""), "credentials", lambda: "request %d auth %r" % (k, r["auth"]))
@@ -205,6 +220,10 @@ def prop(spec, rec):
             labels.add("timeseries_document")
             if any(near_dst(d["t"] + off) for off in d["series"]):
                 labels.add("series_across_dst")
+            z = zoneinfo.ZoneInfo(d["zone"])
+            offs = [datetime.fromtimestamp(d["t"] + off, z).utcoffset() for off in d["series"]]
+            if len(offs) >= 3 and offs[0] == offs[-1] and any(o != offs[0] for o in offs[1:-1]):
+                labels.add("series_interior_in_other_offset")
         if near_dst(d["t"]) or near_dst(d["t"] + d["stay"]):
             labels.add("near_dst")
             nt = True
@@ -244,7 +263,15 @@ def docs(draw, k):
     stay = draw(st.sampled_from([0, 59, 3600, 7200, 86400, 40000]))
     series = None
     if draw(st.integers(0, 2)) == 0:
-        series = sorted(draw(st.lists(st.integers(0, 4 * 3600), min_size=0, max_size=5, unique=True)))
+        shape = draw(st.sampled_from(["short", "short", "long", "unordered"]))
+        if shape == "short":
+            series = sorted(draw(st.lists(st.integers(0, 4 * 3600), min_size=0, max_size=5, unique=True)))
+        else:
+            # samples months apart (the series passes several DST changes and comes back to the
+            # first sample's offset) or not in time order: every sample is converted on its own
+            series = draw(st.lists(st.one_of(st.integers(0, 400 * 86400), st.sampled_from([0, 120 * 86400, 200 * 86400, 365 * 86400])), min_size=2, max_size=6, unique=True))
+            if shape == "long":
+                series = sorted(series)
     return {"id": "doc-%d" % k, "zone": zone, "t": t, "stay": stay, "done": draw(st.sampled_from([None, 1800, 3600])), "kwh": draw(st.sampled_from([0.5, 7.25, 13])), "note": draw(st.sampled_from(["hello", "Mon, 32 Foo 2019 25:61:00 GMT", "2019-03-10T02:30:00", ""])), "series": series}
 
 
@@ -262,7 +289,7 @@ def cases(draw):
     site = draw(st.sampled_from(["caltech", "jpl", "office001", "caltech", "jpl", "office001", "caltech", "Caltech", "mars", ""]))
     if draw(st.integers(0, 2)) == 0:
         s = draw(st.integers(1_500_000_000, 1_600_000_000))
-        q = {"kind": "by_time", "start": s, "end": s + draw(st.integers(0, 10 ** 7)), "zone": draw(st.sampled_from(ZONES)), "min_energy": draw(st.sampled_from([None, 0, 2.5, 10])), "count": draw(st.integers(0, 3)) == 0, "timeseries": draw(st.booleans())}
+        q = {"kind": "by_time", "start": s, "end": s + draw(st.integers(0, 10 ** 7)), "zone": draw(st.sampled_from(ZONES)), "min_energy": draw(st.one_of(st.sampled_from([None, 0, 2.5, 10, 12.3456789, 0.1 + 0.2, 1234567, 1e-7, 33.333333333]), st.floats(0, 100), st.integers(0, 10 ** 7))), "count": draw(st.integers(0, 3)) == 0, "timeseries": draw(st.booleans())}
     else:
         q = {
             "kind": "plain",
@@ -279,7 +306,7 @@ ROUNDTRIP = st.fixed_dictionaries({"zone": st.sampled_from(ZONES), "epoch": EPOC
 
 def subchecks(tier):
     return [
-        Given("paging_and_conversion", cases(), prop, quick=1200, thorough=80000, floors={"empty_page_before_nonempty": 0.13, "near_dst": 0.15, "timeseries_document": 0.2, "by_time": 0.08, "timeseries_query": 0.1}),
+        Given("paging_and_conversion", cases(), prop, quick=1200, thorough=80000, floors={"empty_page_before_nonempty": 0.13, "near_dst": 0.15, "timeseries_document": 0.2, "by_time": 0.08, "timeseries_query": 0.1, "series_interior_in_other_offset": 0.015}),
         Given("time_round_trip", ROUNDTRIP, prop_roundtrip, quick=1500, thorough=200000, floors={"near_dst": 0.3}, jobs_quick=2),
     ]
 
